@@ -238,6 +238,19 @@ def eq(a, b):
         return boolc(True)
     if a.sort == B:
         return _mk('iff', (a, b), B)
+    # x / y == 0  <=>  x == 0   (every division term is created under the path condition y != 0);
+    # c * x == 0  <=>  x == 0   for a constant c != 0.  Keeps branch conditions linear where possible.
+    for u, v in ((a, b), (b, a)):
+        if v.op == 'const' and u.op == 'div' and (u.args[0].op == 'const' or v.val == 0):
+            # x / y == c  <=>  x == c * y   (y != 0 holds on the path)
+            return eq(u.args[0], mul(v, u.args[1]))
+        if v.op == 'const' and v.val == 0:
+            if u.op == 'div':
+                return eq(u.args[0], _c(Fraction(0), u.args[0].sort))
+            if u.op == 'mul' and u.args[0].op == 'const' and u.args[0].val != 0:
+                return eq(u.args[1], _c(Fraction(0), u.args[1].sort))
+            if u.op == 'neg':
+                return eq(u.args[0], v)
     return _cmp('eq', a, b, lambda x, y: x == y)
 
 
